@@ -30,6 +30,9 @@ type SetSpec struct {
 	Serializable bool `json:"serializable,omitempty"`
 	// Ext are additional registered extensions carried verbatim.
 	Ext []ExtSpec `json:"ext,omitempty"`
+	// LeadExt puts an extension the handlers have no use for IN FRONT of the others: "arbitration" (the
+	// well-known master-arbitration arm), "history", "registered" (a registered extension with an id nobody knows)
+	LeadExt string `json:"leadExt,omitempty"`
 }
 
 // ExtSpec is a raw registered extension.
@@ -63,6 +66,16 @@ func (s SetSpec) Build() *gpb.SetRequest {
 		default:
 			req.Update = append(req.Update, &gpb.Update{Path: p, Val: o.Val.Gnmi()})
 		}
+	}
+	switch s.LeadExt {
+	case "arbitration":
+		req.Extension = append(req.Extension, &gnmi_ext.Extension{Ext: &gnmi_ext.Extension_MasterArbitration{
+			MasterArbitration: &gnmi_ext.MasterArbitration{Role: &gnmi_ext.Role{Id: "r"}, ElectionId: &gnmi_ext.Uint128{Low: 1}}}})
+	case "history":
+		req.Extension = append(req.Extension, &gnmi_ext.Extension{Ext: &gnmi_ext.Extension_History{History: &gnmi_ext.History{}}})
+	case "registered":
+		req.Extension = append(req.Extension, &gnmi_ext.Extension{Ext: &gnmi_ext.Extension_RegisteredExt{
+			RegisteredExt: &gnmi_ext.RegisteredExtension{Id: gnmi_ext.ExtensionID(4711), Msg: []byte{1, 2, 3}}}})
 	}
 	if s.Sync || s.Serializable {
 		st := &configapi.TransactionStrategy{}
